@@ -37,7 +37,7 @@ ASSUMPTIONS = [
     'property (upstream errors under parallelize: known finding recorded in DESIGN.md)',
 ]
 BUDGET = {'quick': dict(examples=4000, shards=8, seconds=80, chunk=100),
-          'thorough': dict(examples=200000, shards=16, seconds=1500, chunk=500)}
+          'thorough': dict(examples=200000, shards=16, seconds=1200, chunk=500)}
 
 PREDS = ['none-given', 'all', 'some', 'late', 'none-selected', 'some3']
 
@@ -75,7 +75,7 @@ def selected(kind, late, rid):
 
 @st.composite
 def cases_(draw):
-    real = draw(st.integers(0, 1500)) == 0
+    real = gen.rare(draw, 1)
     if real:
         return {'mode': 'real', 'n': draw(st.sampled_from([0, 1, 7, 60, 600])), 'N': draw(st.integers(1, 4)),
                 'pred': draw(st.sampled_from(PREDS)), 'late': draw(st.integers(0, 40)),
